@@ -18,6 +18,7 @@ DECIDED += "; R11 every container of in-flight messages is covered by hold and b
 DECIDED += '; the slot of a consumed parked datagram is free at once (shared C09-R10)'
 DECIDED += '; R14 Link::release reschedules a message only under the Hold arm of a test of its status; nothing is put in flight past Link::enqueue (shared C03-R2)'
 DECIDED += "; R15 LinkIter::next advances the queue's iterator by plain next; the receive slot is filled only when empty (shared C09-R6)"
+DECIDED += '; the backlog capacity test precedes the enqueue (shared C12-R8)'
 ASSUMPTIONS = ["Link::hold always marks both directions, so 'some direction Healthy' implies 'not held'"]
 
 SENT = "turmoil::top::Link::sent"
